@@ -31,7 +31,8 @@ def soils(seed):
     ]
 
 
-PALETTE = [2.0, 2.5, 3.0, 3.25, 4.0, 4.75, 5.0, 6.5, 7.0, 7.5, 8.0, 8.5, 9.0, 9.25, 11.0, 12.0, 14.6, 19.5, 20.0, 22.0, 29.0, 30.0, 36.0]
+# incl. the boundary levels: table inside the top layer (0, 0.1, 0.5, 0.9), exactly 1, and at / around the profile bottom (N = 20)
+PALETTE = [0.0, 0.1, 0.5, 0.9, 1.0, 19.0, 21.0, 2.0, 2.5, 3.0, 3.25, 4.0, 4.75, 5.0, 6.5, 7.0, 7.5, 8.0, 8.5, 9.0, 9.25, 11.0, 12.0, 14.6, 19.5, 20.0, 22.0, 29.0, 30.0, 36.0]
 
 
 def file_soils(seed):
@@ -128,6 +129,8 @@ def gw_series(seed, start_year, n_entries=760):
         seq = ["%g" % first] * rnd.randint(2, 5)
         if gid == "G1":
             seq += ["9", "9", "8", "8"]
+        # the table rises into the top decimetre, stands at the surface, and drops again (every series, early in the run)
+        seq += ["1", "0.9", "0.5", "0.5", "0.1", "0", "0.5", "4", "0.9", "6.5", "%g" % first, "0.1", "1", "20", "19", "21", "%g" % first]
         drifts = []
         while len(seq) < n_entries:
             stop = len(seq) + 150
